@@ -486,3 +486,58 @@ def c08(case, lines):
                 elif len(set((p[0], p[1]) for p in performed)) > 1:
                     fails.append(f"session {i}: {t} performed {performed} on {a[0]} but only {kd}({','.join(a)}) is recorded")
     return fails
+
+
+HARNESS_CHK = ("ParityRes", "ExistsRes", "AlwaysRes", "FailWhen", "FailStampWhen", "ParityOut")
+
+
+def c09(case, lines):
+    """instrumented harness checkers: every stamp/verdict reported in an event is what the dependency's own checker
+    answered, it was asked with the stamp recorded at creation, and stamps are taken at the right time (reader content
+    = what the task then saw; writer stamp = content after the task's write)."""
+    fails = []
+    cur_ev, cur_ck = [], []
+    blocks = []
+    for l in lines:
+        if l.startswith("op "):
+            if cur_ev or cur_ck: blocks.append((cur_ev, cur_ck))
+            cur_ev, cur_ck = [], []
+        elif l.startswith("ev "): cur_ev.append(l[3:])
+        elif l.startswith("i: ck "): cur_ck.append(l[6:])
+        elif l.startswith("known "):
+            if cur_ev or cur_ck: blocks.append((cur_ev, cur_ck))
+            cur_ev, cur_ck = [], []
+    if cur_ev or cur_ck: blocks.append((cur_ev, cur_ck))
+    for evs, cks in blocks:
+        from_ev, from_ck = [], []
+        for e in evs:
+            t = e.split(" ")
+            if len(t) < 3 or not t[2].startswith(HARNESS_CHK): continue
+            k = t[0]
+            if k in ("read_end", "write_end"): from_ev.append(("rstamp", t[2], t[1], t[3]))
+            elif k == "require_end": from_ev.append(("ostamp", t[2], t[3]))
+            elif k in ("check_resource_end", "check_task_read_resource_end"):
+                from_ev.append(("rcheck", t[2], t[3], t[4]))       # checker, stamp, verdict (resource name not in bottom-up event)
+            elif k in ("check_task_end", "check_task_require_task_end"): from_ev.append(("ocheck", t[2], t[3], t[4]))
+        last_stamp_reader = {}
+        last_written = {}
+        for c in cks:
+            t = c.split(" ")
+            if t[0] in ("stamp_reader", "stamp_writer", "stamp"):
+                res = t[-1]
+                if not res.startswith("error"): from_ck.append(("rstamp", t[1], t[2], res))
+                if t[0] == "stamp_reader": last_stamp_reader[t[2]] = t[3]
+                if t[0] in ("stamp_writer", "stamp") and t[2] in last_written and last_written[t[2]] != t[3]:
+                    fails.append(f"write stamp of {t[2]} taken on content {t[3]} but the task wrote {last_written[t[2]]} (stamp not taken after the write)")
+            elif t[0] == "rcheck": from_ck.append(("rcheck", t[1], t[4], t[-1]))
+            elif t[0] == "ostamp": from_ck.append(("ostamp", t[1], t[-1]))
+            elif t[0] == "ocheck": from_ck.append(("ocheck", t[1], t[3], t[-1]))
+            elif t[0] == "saw":
+                if t[1] in last_stamp_reader and last_stamp_reader.pop(t[1]) != t[2]:
+                    fails.append(f"reader of {t[1]} was stamped on a content different from what the task then read ({t[2]})")
+            elif t[0] == "writes": last_written[t[1]] = t[2]
+        if from_ev != from_ck:
+            d = next((i for i, (a, b) in enumerate(zip(from_ev, from_ck)) if a != b), min(len(from_ev), len(from_ck)))
+            fails.append(f"stamps/verdicts reported in events differ from what the dependencies' own checkers were asked and answered: "
+                         f"event #{d} {from_ev[d] if d < len(from_ev) else None} vs checker call {from_ck[d] if d < len(from_ck) else None}")
+    return fails
